@@ -72,7 +72,7 @@ def wmol_of_graph(g):
 
 # ------------------------------------------------------------------ instrumented pipeline
 
-def run_pipeline(rsmi):
+def run_pipeline(rsmi, explicit_hydrogen=False):
     """rsmi_to_graph, rsmi_to_its, its_to_rsmi on the real code; records what its_to_rsmi hands to implicit_hydrogen
     (the preserve set) and to GraphToMol (the two graphs).  -> dict"""
     import synkit.IO.chem_converter as cc
@@ -80,7 +80,7 @@ def run_pipeline(rsmi):
     G, H = cc.rsmi_to_graph(rsmi)
     if G is None or H is None:
         return None
-    I = cc.rsmi_to_its(rsmi)
+    I = cc.rsmi_to_its(rsmi, explicit_hydrogen=True) if explicit_hydrogen else cc.rsmi_to_its(rsmi)
     rec, pres = [], []
     orig_cls, orig_ih = cc.GraphToMol, hm.implicit_hydrogen
 
@@ -114,12 +114,48 @@ def obs_pipeline(rsmi):
             [w[0]] if w[0] is not None else [], [w[1]] if w[1] is not None else []]
 
 
-def coq_pipeline(rsmi):
+def obs_its_eh(I):
+    """observable of rsmi_to_its(explicit_hydrogen=True) (mirror of tinode_eh): the hydrogen atoms h_to_explicit adds carry no
+    'neighbors' attribute, so its presence is reported as a flag and its value is not compared at top level"""
+    ns = []
+    for n, d in I.nodes(data=True):
+        base = {"element", "charge", "atom_map", "typesGH", "aromatic", "hcount"}
+        odd = sorted(set(d) - base - {"neighbors"}) + sorted("missing:" + k for k in base - set(d))
+        row = [n, E.elem_code(d.get("element", "?")), E._int(d.get("charge", -99)), E._int(d.get("atom_map", -99)),
+               [[E._bool(d["aromatic"]), E._int(d["hcount"])]] if "aromatic" in d and "hcount" in d else [],
+               "neighbors" in d, E.obs_nattr(d["typesGH"][0]), E.obs_nattr(d["typesGH"][1])]
+        if odd:
+            row.append(odd)
+        ns.append(row)
+    es = []
+    for u, v, d in I.edges(data=True):
+        oa, ob = d["order"]
+        row = [min(u, v), max(u, v), E.half(oa), E.half(ob), E.half(d["standard_order"])]
+        odd = sorted(set(d) - {"order", "standard_order"})
+        if odd:
+            row.append(odd)
+        es.append(row)
+    return [S(ns), S(es)]
+
+
+def obs_pipeline_eh(rsmi):
+    r = run_pipeline(rsmi, explicit_hydrogen=True)
+    if r is None:
+        return []
+    if len(r["rec"]) != 2 or len(r["pres"]) not in (0, 2) or (r["pres"] and r["pres"][0] != r["pres"][1]):
+        return ["unexpected-call-pattern", len(r["rec"]), len(r["pres"])]
+    hl = r["pres"][0] if r["pres"] else []
+    w = [wmol_of_graph(g) for g in r["rec"]]
+    return [obs_its_eh(r["I"]), S(list(hl)), E.obs_mgraph(r["rec"][0]), E.obs_mgraph(r["rec"][1]),
+            [w[0]] if w[0] is not None else [], [w[1]] if w[1] is not None else []]
+
+
+def coq_pipeline(rsmi, explicit_hydrogen=False):
     a, b = rsmi.split(">>")
     ma, mb = sanitized_mol(a), sanitized_mol(b)
     if ma is None or mb is None:
         return None
-    return "run_str %s %s" % (coq_rmol(read_rmol(ma)), coq_rmol(read_rmol(mb)))
+    return "%s %s %s" % ("run_str_eh" if explicit_hydrogen else "run_str", coq_rmol(read_rmol(ma)), coq_rmol(read_rmol(mb)))
 
 
 # ------------------------------------------------------------------ MolToGraph.transform alone
